@@ -32,6 +32,7 @@ type PropConfig struct {
 	Extra       []string   `json:"extra_checks,omitempty"` // names of built-in auxiliary analyses (k5, k6 …)
 	Templates   []TemplateCheck `json:"templates,omitempty"` // K6: SQL template lemmas
 	Transitions []TransitionCheck `json:"transitions,omitempty"` // K6b: guarded SQL state-machine updates
+	ScanColumns []ScanColumnCheck `json:"scan_columns,omitempty"` // K6c: provenance of a scanned column
 }
 
 type BoundedCheck struct {
@@ -259,6 +260,18 @@ func cmdCheck(args []string) int {
 			all = append(all, &oblResult{O: o, FR: &FuncResult{Key: tc.Function}})
 		}
 		assumed["DuckDB three-valued logic: WHERE keeps a row iff the filter is TRUE; NOT NULL = NULL; IS [NOT] TRUE and COALESCE as in the SQL standard (validated by the SQL replay on refutation)"] = true
+	}
+	for _, sc := range cfg.ScanColumns {
+		obls, und := p.scanColumnObligations(sc)
+		for _, u := range und {
+			undecidedFuncs = append(undecidedFuncs, u)
+			fmt.Printf("UNDECIDED scan-column=%s reason=%s\n", sc.Name, u)
+		}
+		funcsUnder = append(funcsUnder, sc.Function+" (SQL scan provenance "+sc.Name+")")
+		for _, o := range obls {
+			all = append(all, &oblResult{O: o, FR: &FuncResult{Key: sc.Function}})
+		}
+		assumed["database/sql Scan assigns select item i to destination i"] = true
 	}
 	var anyFn = firstFunc(p)
 	for _, tc := range cfg.Transitions {
